@@ -75,7 +75,7 @@ func vhC01RespPong() {
 
 //verif:harness C01.resp_nodes unwind=40
 //verif:use respenv
-//verif:param L=12/20
+//verif:param L=12/16
 func vhC01RespNodes() {
 	resp := vsBytes("resp", vsParam("L"))
 	p := vhProto()
@@ -89,7 +89,7 @@ func vhC01RespNodes() {
 
 //verif:harness C01.resp_content unwind=40
 //verif:use respenv
-//verif:param L=14/32
+//verif:param L=14/20
 func vhC01RespContent() {
 	resp := vsBytes("resp", vsParam("L"))
 	p := vhProto()
@@ -114,7 +114,7 @@ func (p *vmPermit) Release() { p.released++ }
 //verif:harness C01.resp_offer unwind=80
 //verif:use respenv
 //verif:go drop
-//verif:param L=8/9
+//verif:param L=8/8
 func vhC01RespOffer() {
 	resp := vsBytes("resp", vsParam("L"))
 	ver := uint8(vsChoose("ver", 2))
